@@ -58,6 +58,7 @@ var (
 	flagReport  = flag.String("report", "", "write a JSON report here")
 	flagSimrt   = flag.String("simrt", "github.com/google/safehtml/simrt", "import path of simrt")
 	flagTags    = flag.String("tags", "", "build tags")
+	flagYieldFn = flag.String("yieldfn", "Yield", "simrt function called at yield sites: Yield (scheduling point) or Tick (budget only)")
 )
 
 func fatal(f string, a ...interface{}) {
@@ -265,7 +266,7 @@ func (r *rewriter) hook(name string) string {
 	}
 	r.needImp = true
 	switch name {
-	case "MapKeys", "Yield", "Lock", "Unlock", "RWLock", "RWUnlock", "RLock", "RUnlock", "ReadFile", "Glob", "DirFS":
+	case "MapKeys", "Yield", "Tick", "Lock", "Unlock", "RWLock", "RWUnlock", "RLock", "RUnlock", "ReadFile", "Glob", "DirFS":
 		return "simrt." + name
 	}
 	panic(name)
@@ -282,14 +283,14 @@ func (r *rewriter) newSite(pos token.Pos, kind string) int {
 func (r *rewriter) yieldAt(lbrace token.Pos, kind string) {
 	id := r.newSite(lbrace, kind)
 	r.rep.Yields++
-	r.add(r.off(lbrace)+1, 0, fmt.Sprintf(" %s(%d);", r.hook("Yield"), id))
+	r.add(r.off(lbrace)+1, 0, fmt.Sprintf(" %s(%d);", r.hook(*flagYieldFn), id))
 }
 
 func (r *rewriter) run() {
 	mode := *flagMode
 	doYields := mode == "full"
 	doLocks := mode == "full" || mode == "locks"
-	doMaps := mode == "full"
+	doMaps := mode == "full" && *flagYieldFn == "Yield"
 	doEnv := !*flagStd
 	r.keepUse = map[string]bool{}
 
